@@ -26,11 +26,16 @@ def support_ns(cfg):
     return '::' + '::'.join((cfg['prefix'].split('.') if cfg.get('prefix') else []) + ['Dzn'])
 
 
+def value_type(data):
+    """The value type behind an extern's C++ data string ('const verif::T4&' -> 'verif::T4')."""
+    return data.replace('const ', '').replace('&', '').strip()
+
+
 def all_data_types(facts):
     out = []
     for dec in facts.decls:
-        if dec.kind == 'extern' and dec.node[2].startswith('verif::') and dec.node[2] not in out:
-            out.append(dec.node[2])
+        if dec.kind == 'extern' and 'verif::' in dec.node[2] and value_type(dec.node[2]) not in out:
+            out.append(value_type(dec.node[2]))
     return out
 
 
@@ -70,9 +75,9 @@ def recorder(tag, ev, extra_capture=''):
     body.append('H.in_dispatch = pump_.in_dispatch; H.posted_at_call = pump_.posted;')
     for i, f in enumerate(ev.formals):
         if f[2] == 'out':
-            body.append(f'{f[0]} = {f[1]}({1000 + IN_VALUES[i]});')
+            body.append(f'{f[0]} = {value_type(f[1])}({1000 + IN_VALUES[i]});')
         elif f[2] == 'inout':
-            body.append(f'{f[0]} = {f[1]}({f[0]}.v + 1000);')
+            body.append(f'{f[0]} = {value_type(f[1])}({f[0]}.v + 1000);')
     if ev.reply[0] != 'void':
         body.append(f'return {reply_expr(ev)};')
     return f'[&pump_{extra_capture}]{handler_sig(ev)} {{ ' + ' '.join(body) + ' }'
@@ -208,7 +213,7 @@ def gen_driver(facts, cfg, include_source=True):
         w('  (void)sh_; (void)comp_; (void)client_;')
         args = []
         for i, f in enumerate(ev.formals):
-            w(f'  {f[1]} {f[0]}({IN_VALUES[i]});')
+            w(f'  {value_type(f[1])} {f[0]}({IN_VALUES[i]});')
             args.append(f[0])
         call = f'{pc.fire_side(ev)}({", ".join(args)})'
         if ev.reply[0] != 'void':
@@ -222,7 +227,7 @@ def gen_driver(facts, cfg, include_source=True):
                 w(f'  res += ({f[0]}.v == {1000 + IN_VALUES[i]}) ? "" : "inout-arg-{i}-not-carried-back;";')
         # overwrite the argument variables before returning (deferred closures must have copied them)
         for f in ev.formals:
-            w(f'  {f[0]} = {f[1]}(-1);')
+            w(f'  {f[0]} = {value_type(f[1])}(-1);')
         w('}')
         w(f'static void {fname}(Shell& sh_, Comp& comp_, dzn::pump& pump_, const std::string& client_, const std::string& expect_tag) {{')
         w('  H.reset(); std::string res; unsigned long posted0 = pump_.posted; size_t queued0 = pump_.q.size();')
@@ -364,7 +369,7 @@ def gen_c04(facts, cfg, mcport, events):
     w = out.append
 
     def args_decl(ev):
-        return ' '.join(f'{f[1]} {f[0]}({IN_VALUES[i]});' for i, f in enumerate(ev.formals))
+        return ' '.join(f'{value_type(f[1])} {f[0]}({IN_VALUES[i]});' for i, f in enumerate(ev.formals))
 
     def args_call(ev):
         return ', '.join(f[0] for f in ev.formals)
@@ -380,7 +385,7 @@ def gen_c04(facts, cfg, mcport, events):
     w('      bind_all(sh_, comp_, pump_, -1, ncl); sh_.FinalConstruct(&parent);')
     w('      int scripted = 0;')
     w(f'      comp_.{p.name}.in.{claim.name} = [&]{handler_sig(claim)} {{ H.hit("{mcport.tag(claim)}"); H.in_dispatch = pump_.in_dispatch; ' +
-      ' '.join(f'{f[0]} = {f[1]}({1000 + IN_VALUES[i]});' for i, f in enumerate(claim.formals) if f[2] != 'in') +
+      ' '.join(f'{f[0]} = {value_type(f[1])}({1000 + IN_VALUES[i]});' for i, f in enumerate(claim.formals) if f[2] != 'in') +
       ' return FIELDS[scripted]; };')
     w('      // three-valued reference model. I1: a newer grant overrules (single sel, denied claims and foreign')
     w('      // releases change nothing). I2: S = clients whose MOST RECENT claim was granted and who have not released')
